@@ -55,6 +55,8 @@ var (
 	distinct = map[string]map[uint64]struct{}{}
 	jf       *os.File
 	jbuf     []byte
+
+	distinctCap = 1000000
 )
 
 func count(k string) { res.Counts[k]++ }
@@ -67,7 +69,7 @@ func dist(set string, s string) {
 		m = map[uint64]struct{}{}
 		distinct[set] = m
 	}
-	if len(m) >= 300000 { // memory cap for thorough runs: the reported count is then a lower bound
+	if len(m) >= distinctCap { // memory cap for thorough runs: the reported count is then a lower bound
 		return
 	}
 	m[h.Sum64()] = struct{}{}
@@ -1083,6 +1085,9 @@ func child(args []string) {
 	seed, _ := strconv.ParseUint(args[2], 10, 64)
 	scale, _ := strconv.Atoi(args[3]) // cases = scale * per-family base
 	outfile, jpath := args[4], args[5]
+	if scale > 100 {
+		distinctCap = 100000
+	}
 	var err error
 	jf, err = os.Create(jpath)
 	if err != nil {
@@ -1480,7 +1485,7 @@ func main() {
 	run.Assume("P2PK-shaped scripts (gocoin maps them to the P2PKH address of the key) are skipped: no supported destination of C15")
 	run.Assume("WIF strings whose key is 0 or >= n: acceptance is recorded as an observation (counter), the property text does not name it")
 	run.Assume("bech32.Encode with an empty hrp is not judged (no address has an empty hrp); decoding of an empty hrp is judged")
-	run.Finish("each case = one string or destination given to gocoin's address/bech32/base58/WIF codec and to refaddr; verdict = same accept/refuse, same script, canonical re-encoding, plus the <=4-substitution detection guarantee; distinct_nontrivial = distinct strings derived from valid encodings (valid, mutated or crafted with a valid checksum)", "strings", "nontrivial", run.N(100000, 2000000))
+	run.Finish("each case = one string or destination given to gocoin's address/bech32/base58/WIF codec and to refaddr; verdict = same accept/refuse, same script, canonical re-encoding, plus the <=4-substitution detection guarantee; distinct_nontrivial = distinct strings derived from valid encodings (valid, mutated or crafted with a valid checksum)", "strings", "nontrivial", run.N(100000, 1000000))
 }
 
 func merge(run *vlib.Run, r *result) {
